@@ -680,7 +680,9 @@ func (d *Decoder) processPropertyElt(ectx evaluationContext, startElement xml.St
 						explicitDatatype = true
 						lit.Datatype = ectx.ResolveIRI(attr.Value)
 
-						if lit.Datatype == rdfiri.LangString_Datatype || lit.Datatype == "http://www.w3.org/1999/02/22-rdf-syntax-ns#dirLangString" {
+						if len(lit.Datatype) == 0 {
+							return d.newTokenAttrError(errors.New("empty datatype IRI"), attr)
+						} else if lit.Datatype == rdfiri.LangString_Datatype || lit.Datatype == "http://www.w3.org/1999/02/22-rdf-syntax-ns#dirLangString" {
 							return d.newTokenAttrError(errors.New("a literal of a language-tagged datatype requires a language tag"), attr)
 						}
 					}
